@@ -151,7 +151,7 @@ def tlc_simulate(module, cfg, workdir, *, num, depth, seed, timeout=300):
     base = re.sub(r"DEPTH\s*=\s*\d+", "DEPTH = %d" % max(3, depth // 4), base)
     tmp = os.path.join(workdir, "sim-" + os.path.basename(cfg))
     open(tmp, "w").write(base)
-    rc, out, wall = tlc_run(module, tmp, workdir, workers=1, timeout=timeout,
+    rc, out, wall = tlc_run(module, tmp, workdir, workers=1, timeout=max(timeout, 300 + 2 * num),      # (thorough handler walks: ~0.3 s each, more under load)
                             extra=["-simulate", "num=%d" % num, "-depth", str(depth), "-seed", str(seed)])
     if re.search(r"^Error: ", out, re.M):
         sys.stdout.write(out[-3000:])
